@@ -235,9 +235,8 @@ func (c *Check) startRules(prefix string) {
 		pending := af.Has(pe) || af.Has(pn)
 		// or the false edge of ¬expiry ∧ ¬new as one compound fact
 		for _, fa := range af {
-			if fa.Neg && fa.T.Op == "&&" {
-				cs := conjuncts(fa.T)
-				if len(cs) == 2 && ((cs[0] == pe.Not().String() && cs[1] == pn.Not().String()) || (cs[1] == pe.Not().String() && cs[0] == pn.Not().String())) {
+			if ds := fa.Disjuncts(); len(ds) == 2 {
+				if (ds[0] == pe.String() && ds[1] == pn.String()) || (ds[1] == pe.String() && ds[0] == pn.String()) {
 					pending = true
 				}
 			}
@@ -379,36 +378,33 @@ func (c *Check) heightSkeletons(prefix string) {
 		}
 	}
 	c.req(same, prefix+".heights", "EndBlocker#marker-vs-queue", token.NoPos, "the marker height and the batch-expiry queue height are the same expression over the same context")
-	// the request record's own expiration height and the builder's argument
-	for _, f := range c.handFuncs("keeper") {
-		for _, pa := range c.P.PathsOf(f) {
-			for _, r := range pa.Ret {
-				if r.Op != "lit" || len(r.A) == 0 || r.A[0].At != "types.CompactRequest" {
-					continue
-				}
-				eh := field("CompactRequest", "ExpirationHeight", r)
-				rh := field("CompactRequest", "RequestHeight", r)
-				b, ok := eh.Match("(+ BlockHeight $T)")
-				okp := ok && isParamTerm(b["$T"]) && rh.IsAt("BlockHeight")
-				c.req(okp, prefix+".heights", unitConstruct(f, "request-heights"), pa.RetPos, "a request records RequestHeight = BlockHeight and ExpirationHeight = BlockHeight + timeout parameter: "+shortTerm(eh))
-				if okp {
-					// the timeout parameter is bound to the context's Timeout at the call in the batch-start function
-					var ti int
-					fmt.Sscanf(b["$T"].At, "P%d", &ti)
-					bound := false
-					for _, pb := range c.P.PathsOf(u.BS) {
-						for _, ev := range pb.Events {
-							if ev.Kind == EvCall && ev.CI.fn == f && ti < len(ev.CI.args) && strings.HasPrefix(ev.CI.args[ti].Op, ".RequestContext.Timeout") {
-								bound = true
-							}
-						}
+	// the request record's own expiration height (and the builder's timeout argument, if a builder is used)
+	n := 0
+	for _, rv := range c.compactRequestValues() {
+		n++
+		f := rv.fn
+		eh := field("CompactRequest", "ExpirationHeight", rv.lit)
+		rh := field("CompactRequest", "RequestHeight", rv.lit)
+		b, ok := eh.Match("(+ BlockHeight $T)")
+		direct := ok && strings.HasPrefix(b["$T"].Op, ".RequestContext.Timeout")
+		okp := ok && (isParamTerm(b["$T"]) || direct) && rh.IsAt("BlockHeight")
+		c.req(okp, prefix+".heights", unitConstruct(f, "request-heights"), rv.pos, "a request records RequestHeight = BlockHeight and ExpirationHeight = BlockHeight + the context's timeout: "+shortTerm(eh))
+		if okp && !direct {
+			var ti int
+			fmt.Sscanf(b["$T"].At, "P%d", &ti)
+			bound := false
+			for _, pb := range c.P.PathsOf(u.BS) {
+				for _, ev := range pb.Events {
+					if ev.Kind == EvCall && ev.CI.fn == f && ti < len(ev.CI.args) && strings.HasPrefix(ev.CI.args[ti].Op, ".RequestContext.Timeout") {
+						bound = true
 					}
-					c.req(bound, prefix+".heights", unitConstruct(u.BS, "request-timeout-arg"), u.BS.Body.Pos(), "the request builder receives the context's Timeout")
 				}
-				return
 			}
+			c.req(bound, prefix+".heights", unitConstruct(u.BS, "request-timeout-arg"), u.BS.Body.Pos(), "the request builder receives the context's Timeout")
 		}
+		break
 	}
+	c.req(n >= 1, prefix+".heights", "request-record-heights", token.NoPos, "a constructed request record was found")
 }
 
 // contextDeleters (C11.7): the context record is deleted only under the expired-batch handler.
